@@ -370,6 +370,38 @@ func (c *child) randomForced() {
 		g := &core.ProgGen{R: r, MaxDepth: 1 + r.Intn(3)}
 		p := g.Gen()
 		in, rcases, ops, nRender := c08.BuildCases(r, p, cfg)
+		// the concurrent runs first (cold state), the renders alone afterwards
+		type done struct {
+			cases []Case
+			obs   []c08.Obs
+			run   ForcedRun
+		}
+		var runs []done
+		for k := 0; k < c.in.RandPerGroup; k++ {
+			n := 2 + r.Intn(2)
+			cases := make([]Case, n)
+			for i := range cases {
+				o := ops[r.Intn(nRender)]
+				cases[i] = Case{o.T, o.D}
+			}
+			inst, obs, run, err := runForced(in, cases, nil, r.Intn)
+			if err != nil {
+				if inst == nil {
+					c.toolErr("generated bundle rejected: %v", err)
+					break
+				}
+				c.toolErr("%v", err)
+				continue
+			}
+			c.out.RandomRuns++
+			c.out.Renders += int64(n)
+			if switches(run.Actual) >= 2 {
+				c.out.Distinct = append(c.out.Distinct, schedKey(cfg.Name+"/"+in.Files[0].Text, nil, run.Actual)+fmt.Sprint(cases))
+			}
+			c.attribute(&Mismatch{Kind: "forced", Family: "race-detector", Cfg: cfg, Inputs: in, Cases: cases, Schedule: run.Actual,
+				What: "sampled schedule over a generated bundle"}, inst)
+			runs = append(runs, done{cases, obs, run})
+		}
 		fresh, muts, err := c08.FreshOutcomesDiff(in, ops[:nRender], true)
 		if err != nil {
 			c.toolErr("generated bundle rejected: %v", err)
@@ -382,38 +414,18 @@ func (c *child) randomForced() {
 			pj, _ := c08.ProgJSON(&q, &cfg)
 			c.out.Solo = append(c.out.Solo, SoloRender{cfg, pj, fresh[ops[i].Key()], in.Files, muts[ops[i].Key()]})
 		}
-		for k := 0; k < c.in.RandPerGroup; k++ {
-			n := 2 + r.Intn(2)
-			cases := make([]Case, n)
-			exp := make([]Expect, n)
-			for i := range cases {
-				o := ops[r.Intn(nRender)]
-				cases[i] = Case{o.T, o.D}
-				f := fresh[o.Key()]
-				exp[i] = Expect{"ok", f.Out}
-				if f.Err {
-					exp[i].St = "err"
-				}
-			}
-			inst, obs, run, err := runForced(in, cases, nil, r.Intn)
-			if err != nil {
-				c.toolErr("%v", err)
-				continue
-			}
-			c.out.RandomRuns++
-			c.out.Renders += int64(n)
-			if switches(run.Actual) >= 2 {
-				c.out.Distinct = append(c.out.Distinct, schedKey(cfg.Name+"/"+in.Files[0].Text, nil, run.Actual)+fmt.Sprint(cases))
-			}
-			c.attribute(&Mismatch{Kind: "forced", Family: "race-detector", Cfg: cfg, Inputs: in, Cases: cases, Schedule: run.Actual,
-				What: "sampled schedule over a generated bundle"}, inst)
-			for gi := range cases {
-				f := fresh[c08.Op{Op: "render", T: cases[gi].T, D: cases[gi].D}.Key()]
-				if obs[gi].Err != f.Err || obs[gi].Out != f.Out {
-					m := Mismatch{Kind: "forced", Family: "concurrent-bytes", Cfg: cfg, Inputs: in, Cases: cases, Schedule: run.Actual,
-						Actual: run.Actual, Gor: gi + 1, Case: cases[gi], Expected: exp[gi], Observed: obs[gi]}
-					m.Diff = explain(in, cases, run.Actual)
-					m.What = fmt.Sprintf("goroutine %d rendering %s under schedule %v: run alone it gives err=%v %q, concurrently err=%v %q", gi+1, cases[gi].T, run.Actual, f.Err, f.Out, obs[gi].Err, obs[gi].Out)
+		for _, d := range runs {
+			for gi := range d.cases {
+				f := fresh[c08.Op{Op: "render", T: d.cases[gi].T, D: d.cases[gi].D}.Key()]
+				if d.obs[gi].Err != f.Err || d.obs[gi].Out != f.Out {
+					e := Expect{"ok", f.Out}
+					if f.Err {
+						e.St = "err"
+					}
+					m := Mismatch{Kind: "forced", Family: "concurrent-bytes", Cfg: cfg, Inputs: in, Cases: d.cases, Schedule: d.run.Actual,
+						Actual: d.run.Actual, Gor: gi + 1, Case: d.cases[gi], Expected: e, Observed: d.obs[gi]}
+					m.Diff = explain(in, d.cases, d.run.Actual)
+					m.What = fmt.Sprintf("goroutine %d rendering %s under schedule %v: run alone it gives err=%v %q, concurrently err=%v %q", gi+1, d.cases[gi].T, d.run.Actual, f.Err, f.Out, d.obs[gi].Err, d.obs[gi].Out)
 					c.addMismatch(m)
 					break
 				}
@@ -464,15 +476,9 @@ func (c *child) stress() {
 			c.toolErr("install %s: %v", j.cfg.Name, err)
 			return
 		}
-		solo, err := c08.FreshOutcomes(j.in, j.ops)
-		if err != nil {
-			c.toolErr("stress bundle rejected: %v", err)
-			restore()
-			continue
-		}
 		inst, err := c08.NewInstance(j.in)
 		if err != nil {
-			c.toolErr("%v", err)
+			c.toolErr("stress bundle rejected: %v", err)
 			restore()
 			continue
 		}
@@ -482,44 +488,86 @@ func (c *child) stress() {
 			c.out.Samples = append(c.out.Samples, map[string]interface{}{"stress": true, "cfg": j.cfg.Name, "files": j.in.Files, "goroutines": G, "rendersEach": R})
 		}
 		c.out.Distinct = append(c.out.Distinct, "stress/"+j.cfg.Name+"/"+j.in.Files[0].Text)
+		// The concurrent phase comes FIRST, on cold state: the sequential
+		// outcomes it is compared with are computed afterwards (computing them
+		// before would warm every lazily filled cache and hide first-use races).
+		// NOTE: the goroutines share nothing of the harness while they run (their
+		// records are private, read after the join): a shared atomic counter
+		// would order the renders for the race detector and hide races.
 		var stop int32
-		var mu sync.Mutex
-		var first *Mismatch
 		var wg sync.WaitGroup
 		var renders, writes int64
+		type seen struct {
+			first map[string]c08.Obs // per operation: what this goroutine got the first time
+			n     int64
+			self  *Mismatch // an operation gave this goroutine two different outcomes
+		}
+		var first *Mismatch
 		run := func(kind string, lo, hi, reps int) {
+			recs := make([]*seen, G)
 			for g := 0; g < G; g++ {
+				recs[g] = &seen{first: map[string]c08.Obs{}}
 				wg.Add(1)
-				go func(g int) {
+				go func(g int, rec *seen) {
 					defer wg.Done()
 					for i := 0; i < reps && atomic.LoadInt32(&stop) == 0; i++ {
 						o := j.ops[lo+(g+i)%(hi-lo)]
 						obs := inst.Do(o)
-						if kind == "stress" {
-							atomic.AddInt64(&renders, 1)
-						} else {
-							atomic.AddInt64(&writes, 1)
+						rec.n++
+						f, ok := rec.first[o.Key()]
+						if !ok {
+							rec.first[o.Key()] = obs
+							continue
 						}
-						s := solo[o.Key()]
-						if obs.Err != s.Err || obs.Out != s.Out {
-							atomic.StoreInt32(&stop, 1)
-							mu.Lock()
-							if first == nil {
-								e := Expect{"ok", s.Out}
-								if s.Err {
-									e.St = "err"
-								}
-								first = &Mismatch{Kind: kind, Family: "concurrent-bytes", Cfg: j.cfg, Inputs: j.in, Cases: renderCases(j.ops[:j.nR]), Gor: g + 1, Case: Case{o.T + o.F, o.D},
-									Expected: e, Observed: obs,
-									What: fmt.Sprintf("%d goroutines x %d %s of one bundle: goroutine %d, %s: alone err=%v %q, concurrently err=%v %q", G, reps, kind, g+1, o.Key(), s.Err, trunc(s.Out, 200), obs.Err, trunc(obs.Out, 200))}
+						if obs.Err != f.Err || obs.Out != f.Out {
+							e := Expect{"ok", f.Out}
+							if f.Err {
+								e.St = "err"
 							}
-							mu.Unlock()
+							rec.self = &Mismatch{Kind: kind, Family: "concurrent-bytes", Cfg: j.cfg, Inputs: j.in, Cases: renderCases(j.ops[:j.nR]), Gor: g + 1, Case: Case{o.T + o.F, o.D},
+								Expected: e, Observed: obs,
+								What: fmt.Sprintf("%d goroutines x %d %s of one bundle: goroutine %d, %s: first err=%v %q, later err=%v %q", G, reps, kind, g+1, o.Key(), f.Err, trunc(f.Out, 200), obs.Err, trunc(obs.Out, 200))}
+							atomic.StoreInt32(&stop, 1)
 							return
 						}
 					}
-				}(g)
+				}(g, recs[g])
 			}
 			wg.Wait()
+			// the renders alone, each on its own fresh bundle
+			solo, err := c08.FreshOutcomes(j.in, j.ops[lo:hi])
+			if err != nil {
+				c.toolErr("stress bundle rejected: %v", err)
+				return
+			}
+			for g, rec := range recs {
+				if kind == "stress" {
+					renders += rec.n
+				} else {
+					writes += rec.n
+				}
+				if first != nil {
+					continue
+				}
+				if rec.self != nil {
+					first = rec.self
+					continue
+				}
+				for _, o := range j.ops[lo:hi] {
+					obs, ok := rec.first[o.Key()]
+					s := solo[o.Key()]
+					if ok && (obs.Err != s.Err || obs.Out != s.Out) {
+						e := Expect{"ok", s.Out}
+						if s.Err {
+							e.St = "err"
+						}
+						first = &Mismatch{Kind: kind, Family: "concurrent-bytes", Cfg: j.cfg, Inputs: j.in, Cases: renderCases(j.ops[:j.nR]), Gor: g + 1, Case: Case{o.T + o.F, o.D},
+							Expected: e, Observed: obs,
+							What: fmt.Sprintf("%d goroutines x %d %s of one bundle: goroutine %d, %s: alone err=%v %q, concurrently err=%v %q", G, reps, kind, g+1, o.Key(), s.Err, trunc(s.Out, 200), obs.Err, trunc(obs.Out, 200))}
+						break
+					}
+				}
+			}
 		}
 		run("stress", 0, j.nR, R)
 		if len(j.ops) > j.nR {
@@ -552,51 +600,60 @@ type Op8 = c08.Op
 // construction, parse passes) and render independent bundles at once.
 func (c *child) compileStress(r *rand.Rand, G, reps int) {
 	type unit struct {
-		in   *c08.Inputs
-		op   Op8
-		solo c08.Obs
+		in    *c08.Inputs
+		op    Op8
+		first c08.Obs
+		bad   *c08.Obs
+		n     int64
 	}
-	units := make([]unit, G)
+	units := make([]*unit, G)
 	for g := range units {
 		p := (&core.ProgGen{R: r, MaxDepth: 1 + r.Intn(3)}).Gen()
 		in, _, ops, _ := c08.BuildCases(r, p, c08.Configs[0])
-		solo, err := c08.FreshOutcomes(in, ops[:1])
-		if err != nil {
-			c.toolErr("compile-stress bundle rejected: %v", err)
-			return
-		}
-		units[g] = unit{in, ops[0], solo[ops[0].Key()]}
+		units[g] = &unit{in: in, op: ops[0]}
 	}
 	var wg sync.WaitGroup
-	var mu sync.Mutex
-	var n int64
 	for g := 0; g < G; g++ {
 		wg.Add(1)
-		go func(g int) {
+		go func(u *unit) {
 			defer wg.Done()
-			u := units[g]
 			for i := 0; i < reps; i++ {
 				inst, err := c08.NewInstance(u.in)
-				atomic.AddInt64(&n, 1)
+				u.n++
 				var obs c08.Obs
 				if err != nil {
 					obs = c08.Obs{Err: true, ErrText: "compile: " + err.Error()}
 				} else {
 					obs = inst.Do(u.op)
 				}
-				if obs.Err != u.solo.Err || obs.Out != u.solo.Out {
-					mu.Lock()
-					c.addMismatch(Mismatch{Kind: "stress-compile", Family: "concurrent-bytes", Cfg: c08.Configs[0], Inputs: u.in, Gor: g + 1, Case: Case{u.op.T, u.op.D},
-						Expected: Expect{"ok", u.solo.Out}, Observed: obs,
-						What: fmt.Sprintf("%d goroutines compiling independent bundles: goroutine %d got err=%v %q (%s), alone err=%v %q", G, g+1, obs.Err, trunc(obs.Out, 200), obs.ErrText, u.solo.Err, trunc(u.solo.Out, 200))})
-					mu.Unlock()
+				if i == 0 {
+					u.first = obs
+				} else if obs.Err != u.first.Err || obs.Out != u.first.Out {
+					u.bad = &obs
 					return
 				}
 			}
-		}(g)
+		}(units[g])
 	}
 	wg.Wait()
-	c.out.Compiles += n
+	for g, u := range units {
+		c.out.Compiles += u.n
+		solo, err := c08.FreshOutcomes(u.in, []Op8{u.op})
+		if err != nil {
+			c.toolErr("compile-stress bundle rejected: %v", err)
+			continue
+		}
+		s := solo[u.op.Key()]
+		obs := u.first
+		if u.bad != nil {
+			obs = *u.bad
+		}
+		if obs.Err != s.Err || obs.Out != s.Out {
+			c.addMismatch(Mismatch{Kind: "stress-compile", Family: "concurrent-bytes", Cfg: c08.Configs[0], Inputs: u.in, Gor: g + 1, Case: Case{u.op.T, u.op.D},
+				Expected: Expect{"ok", s.Out}, Observed: obs,
+				What: fmt.Sprintf("%d goroutines compiling independent bundles: goroutine %d got err=%v %q (%s), alone err=%v %q", G, g+1, obs.Err, trunc(obs.Out, 200), obs.ErrText, s.Err, trunc(s.Out, 200))})
+		}
+	}
 	c.out.Distinct = append(c.out.Distinct, "compile-stress")
 }
 
